@@ -16,6 +16,12 @@ Theorem C10_rendering_in_range : forall n l,
 Proof. exact to_cnf_in_range. Qed.
 Print Assumptions C10_rendering_in_range.
 
+(* ... and so does the pseudo-Boolean rendering (class OPB) *)
+Theorem C10_opb_rendering_in_range : forall n l,
+  irs_ok l = true -> irs_max_var l <= n -> opb_in_range n (to_opb l) = true.
+Proof. exact to_opb_in_range. Qed.
+Print Assumptions C10_opb_rendering_in_range.
+
 (* the certificate checker run (extracted) on the builder calls of an instance is sound *)
 Theorem C10_checker_sound : forall n l, irs_in_range n l = true -> lits_in_range n (to_cnf l) = true.
 Proof. exact irs_in_range_sound. Qed.
